@@ -13,8 +13,27 @@ import (
 // identifier atom (the same one each time). What Identifierize does with every
 // class of text is decided separately by A-IDENT (C14); concrete arguments are
 // still interpreted through the real code.
+// IdentFor returns the identifier atom the stubbed synthesiser gives to a raw name atom (creating it on first use).
+func IdentFor(m *absint.Machine, a *absint.Atom) *absint.Atom {
+	if m.Scratch == nil {
+		m.Scratch = map[string]any{}
+	}
+	tab, _ := m.Scratch["idents"].(map[int]*absint.Atom)
+	if tab == nil {
+		tab = map[int]*absint.Atom{}
+		m.Scratch["idents"] = tab
+	}
+	if na, ok := tab[a.ID]; ok {
+		return na
+	}
+	na := m.NewAtom("Ident", "identifier of "+a.Name)
+	na.NonEmpty = true
+	na.Facts["of"] = a.Name
+	tab[a.ID] = na
+	return na
+}
+
 func InstallStubs(m *absint.Machine) {
-	idents := map[int]absint.Str{}
 	prev := m.OnCall
 	m.OnCall = func(fn *ssa.Function, args []absint.Value) (absint.Value, bool) {
 		if prev != nil {
@@ -31,14 +50,7 @@ func InstallStubs(m *absint.Machine) {
 			}
 			if len(s.P) == 1 && s.P[0].Hole != nil && len(s.P[0].Hole.Tr) == 0 && s.P[0].Hole.A.Kind == "RawStr" {
 				a := s.P[0].Hole.A
-				if r, ok := idents[a.ID]; ok {
-					return r, true
-				}
-				na := m.NewAtom("Ident", "identifier of "+a.Name)
-				na.NonEmpty = true
-				na.Facts["of"] = a.Name
-				r := absint.HoleStr(na)
-				idents[a.ID] = r
+				r := absint.HoleStr(IdentFor(m, a))
 				m.Assume("Identifierize maps a symbolic name to one synthesised identifier (its behaviour on every class of text is decided by A-IDENT under C14)")
 				return r, true
 			}
